@@ -539,6 +539,34 @@ CS_CLASSES = [  # (tag, loop classes, number of contact points)
 CS_CLEAN = [c for c in CS_CLASSES if "d5" not in c[0]]
 
 
+
+import random
+
+
+def interleave_groups(lines, r2, stats):
+    """With probability 1/2 break a group of consecutive constraint rows that the library would merge
+    (same body and point / same loop frames) by moving a constraint of the other type in between:
+    `contact, loop, same contact again` (defect D19: the appended row overlapped the loop's row)."""
+    ci = [i for i, l in enumerate(lines) if l.startswith("cs_contact")]
+    li = [i for i, l in enumerate(lines) if l.startswith("cs_loop")]
+    if not ci or not li or r2.random() < 0.5:
+        return lines
+    def key(l):
+        t = l.split()
+        return tuple(t[:5]) if t[0] == "cs_contact" else tuple(t[:27])
+    for grp, other in ((ci, li), (li, ci)):
+        pairs = [(a, b) for a, b in zip(grp, grp[1:]) if b == a + 1 and key(lines[a]) == key(lines[b])]
+        if pairs:
+            a, b = r2.choice(pairs)
+            o = r2.choice(other)
+            mv = lines[o]
+            rest = [l for k, l in enumerate(lines) if k != o]
+            pos = rest.index(lines[b])
+            stats["constraint-groups:interleaved"] += 1
+            return rest[:pos] + [mv] + rest[pos:]
+    return lines
+
+
 def gen_cs(prefix, seed, tier, nq, nt, calls_fn, classes, fext_prob=0.0, baumgarte_prob=0.0, need_free=1):
     g = G.Gen(seed)
     out, samples, sigs = [], [], set()
@@ -554,7 +582,8 @@ def gen_cs(prefix, seed, tier, nq, nt, calls_fn, classes, fext_prob=0.0, baumgar
             g.stats["rejected:" + tag] += 1
             continue
         mb, grav, st, cb = r
-        body = list(cb.lines) + ["cs_bind"] + st
+        clines = interleave_groups(list(cb.lines), random.Random(seed * 7907 + made), g.stats)
+        body = clines + ["cs_bind"] + st
         if g.r.random() < fext_prob:
             body.append(mb.fext_line(0.4))
         body += calls_fn(g, mb, cb)
